@@ -314,10 +314,16 @@ class Repo:
 
     def _moved(self, qual: str, table: dict):
         """A module-level function / class that is no longer where a rule expects it but exists, under the same name,
-        in exactly one other module of the package (moved during a reorganisation, usually imported back)."""
+        in exactly one other module of the package (moved during a reorganisation, usually imported back) - or is imported
+        into the expected module under that name (possibly renamed at its new home)."""
         mod, _, name = qual.partition(":")
         if "." in name or "<locals>" in name:
             return None
+        m = self.modules.get(mod)
+        if m is not None and name in m.imports:
+            r = self._follow_import(m.imports[name])
+            if isinstance(r, (FuncInfo, ClassInfo)) and r.qual in table:
+                return r
         hits = [v for q, v in table.items() if q.partition(":")[2] == name]
         return hits[0] if len(hits) == 1 else None
 
